@@ -102,7 +102,7 @@ class PolyhedralConeOrder(Order):
         pareto_indices = []
         for el_i, el in enumerate(elements):
             for other_el in elements:
-                if np.allclose(el, other_el):
+                if np.array_equal(el, other_el):
                     continue
 
                 if self.dominates(other_el, el):
